@@ -269,7 +269,7 @@ def _gen_op(rng, at, knobs, live, ops=None, slots=None):
     elif r < 0.25 + sr * 0.3:
         op = W.gen_state_op(rng)
     elif r < 0.62 + sr * 0.3:
-        op = W.gen_derivation(rng, at, live)
+        op = W.gen_derivation(rng, at, live, slots)
     elif r < 0.68 + sr * 0.3:
         op = W.gen_restart(rng, live, slots)
     else:
